@@ -8,7 +8,7 @@
    constant evaluator; here the operands are arbitrary (parameters, assignments) and the object is the IR. *)
 From PV Require Import Lib.Py Spec.CIntSpec Spec.CExprSpec Gen.ceval Model.CEval Model.CGenExpr
                        Model.CGenExprRun Spec.IRSyntax Spec.IRSem Proofs.C01_base Proofs.C01_arith Proofs.C01_expr
-                       Proofs.C01_refuted Proofs.C01_ptr Model.CGenPtr Gen.c01_targets.
+                       Proofs.C01_refuted Proofs.C01_ptr Model.CGenPtr Spec.CStmtSpec Model.CGenStmt Proofs.C01_stmt Gen.c01_targets.
 Open Scope Z_scope.
 
 (* -- typing: the type CSemantics assigns is the C11 type (6.3.1.1, 6.3.1.8, 6.5.x) -- *)
@@ -40,7 +40,7 @@ Print Assumptions c01_function_value.
    promote / get_common_type on every run): no typing hypothesis is left, except for op= *)
 Theorem c01_expr_value_c11 : forall (k : cfg) (g : cgen), wf_ctx (cg_ctx g) -> faithful k g ->
   forall (te : tenv) (e : cx) (st : store) (v : Z) (st' : store),
-  store_ok (dm_of (cg_ctx g)) te st -> cassign_all (dm_of (cg_ctx g)) te e = true ->
+  store_ok (dm_of (cg_ctx g)) te st -> cassign_all (dm_of (cg_ctx g)) te false e = true ->
   ceval (dm_of (cg_ctx g)) te st e = Some (v, st') ->
   ttyp (elab (sem_c11 (cg_ctx g)) te e) = xtype_of (dm_of (cg_ctx g)) te e /\
   xrun k (lower g (elab (sem_c11 (cg_ctx g)) te e)) st = ODone (v, st').
@@ -50,6 +50,20 @@ Proof.
   - exact (expr_value k g W F te _ e st v st' SO A EV).
 Qed.
 Print Assumptions c01_expr_value_c11.
+
+(* the code with fixes/C01-compound-assign.diff (sem_c11a: `x op= e` computed in the type of `x op e`): NO hypothesis on
+   the expression is left — every defined-behaviour expression of the fragment has the C type, value and effects *)
+Theorem c01_expr_value_unconditional : forall (k : cfg) (g : cgen), wf_ctx (cg_ctx g) -> faithful k g ->
+  forall (te : tenv) (e : cx) (st : store) (v : Z) (st' : store),
+  store_ok (dm_of (cg_ctx g)) te st -> ceval (dm_of (cg_ctx g)) te st e = Some (v, st') ->
+  ttyp (elab (sem_c11a (cg_ctx g)) te e) = xtype_of (dm_of (cg_ctx g)) te e /\
+  xrun k (lower g (elab (sem_c11a (cg_ctx g)) te e)) st = ODone (v, st').
+Proof.
+  intros k g W F te e st v st' SO EV. pose proof (agrees_c11a (cg_ctx g) W te e) as A. split.
+  - exact (expr_typing g te _ e A).
+  - exact (expr_value k g W F te _ e st v st' SO A EV).
+Qed.
+Print Assumptions c01_expr_value_unconditional.
 
 (* -- one theorem per operator: IRSem arithmetic in the IR type of t on operands of type t is the C operator -- *)
 Theorem c01_binop_add : forall (k : cfg) (g : cgen), wf_ctx (cg_ctx g) -> faithful k g -> forall t a b r,
@@ -223,6 +237,42 @@ Proof.
   split; [discriminate|reflexivity].
 Qed.
 Print Assumptions c01_ptr_scaling_refuted.
+
+(* -- statements: the skeleton CCodeGenerator.gen_stmt builds for compound / expression statements / declarations
+      with initialiser / if / if-else / while / do-while / for / break / continue / return over integer locals
+      (Model/CGenStmt.v: lower_stmt, run by srun with Spec/IRSem arithmetic) ends like the C big-step semantics
+      Spec/CStmtSpec.v: same outcome (normal, break, continue, return v), same final store, same fuel, whenever the
+      C execution is defined and terminates.  Unbounded over statements, stores, fuel, data models and typing
+      variants.  (The linearisation of the skeleton into blocks, emit_fn_stmt, is compared with the real c_to_ir
+      output structurally and by execution on every run; it is not part of this theorem.) -- *)
+Theorem c01_stmt_exact : forall (k : cfg) (g : cgen), wf_ctx (cg_ctx g) -> faithful k g ->
+  forall (te : tenv) (rt : ity) (sv : semv) (fuel : nat) (s : cstmt) (st : store) (o : sout) (st' : store),
+  store_ok (dm_of (cg_ctx g)) te st -> agrees_stmt sv (dm_of (cg_ctx g)) te s = true ->
+  exec (dm_of (cg_ctx g)) te rt fuel st s = Some (o, st') ->
+  srun k fuel (lower_stmt g (elab_stmt sv te rt s)) st = ODone (o, st') /\ store_ok (dm_of (cg_ctx g)) te st'.
+Proof. intros k g W F te rt sv fuel. exact (stmt_sim k g W F te rt sv fuel). Qed.
+Print Assumptions c01_stmt_exact.
+
+(* `rt f(params) { body }` : the value returned *)
+Theorem c01_function_stmt_exact : forall (k : cfg) (g : cgen), wf_ctx (cg_ctx g) -> faithful k g ->
+  forall (te : tenv) (rt : ity) (sv : semv) (np fuel : nat) (args : list Z) (body : cstmt) (v : Z),
+  store_ok (dm_of (cg_ctx g)) te (args ++ repeat 0 (List.length te - np)) ->
+  agrees_stmt sv (dm_of (cg_ctx g)) te body = true ->
+  run_fn (dm_of (cg_ctx g)) te np rt fuel args body = Some v ->
+  ('(o, _) <~ srun k fuel (lower_stmt g (elab_stmt sv te rt body)) (args ++ repeat 0 (List.length te - np)) ;;
+   match o with SRet r => ODone r | _ => OStuck end) = ODone v.
+Proof. exact fn_stmt_exact. Qed.
+Print Assumptions c01_function_stmt_exact.
+
+(* int f(int a0) { int a1 = 0; for (int a2 = 0; a2 < a0; a2 += 1) { if (a2 == 2) continue; a1 += a2; } return a1; } *)
+Example c01_stmt_nonvacuous :
+  let body := SSeq (SDecl 1 (XLit TInt 0))
+             (SSeq (SFor (SDecl 2 (XLit TInt 0)) (XBin BLt (XVar 2) (XVar 0)) (XAssignOp BAdd 2 (XLit TInt 1))
+                         (SSeq (SIf1 (XBin BEq (XVar 2) (XLit TInt 2)) SContinue) (SExpr (XAssignOp BAdd 1 (XVar 2)))))
+                   (SReturn (XVar 1))) in
+  agrees_stmt (sem_c11 (cg_ctx tg_x86_64)) (dm_of (cg_ctx tg_x86_64)) [TInt; TInt; TInt] body = true /\
+  run_fn (dm_of (cg_ctx tg_x86_64)) [TInt; TInt; TInt] 1 TInt 50 [5] body = Some 8.
+Proof. split; reflexivity. Qed.
 
 Example c01_nonvacuous :
   wf_ctx (cg_ctx tg_x86_64) /\
